@@ -21,8 +21,8 @@ func (c02) ID() string { return "C02" }
 func (c02) Meta(tier string) engine.Meta {
 	return engine.Meta{
 		Level: "model_checking",
-		Rule: "type-directed enumeration over the partial-operation alphabet: list subscripts and get() with indices {-1,-0.5,0,0.5,1,2,len,2^53,1e300,NaN,±Inf,0/0,1/0}, map subscripts / get / isset with present and absent keys of str and num key types, % with divisors {0,0.5,-0.5,-1,3,2^63}, match with valid / invalid patterns, get(optional), empty containers; all programs up to the depth bound; plus size families (lists / nested sums / nested conditionals with 43…3000 live stack slots or constants, 256…70000 constants). Oracle: the reference evaluator predicts value or failure kind; the real outcome must be a value exactly when defined and a failure only of the documented kind; get() never fails. non-trivial = the program contains a partial operation",
-		Bound: "depth 2 (quick: depth 1 in full + depth 2 with one nested operand); size families are linear sweeps",
+		Rule: "type-directed enumeration over the partial-operation alphabet: list subscripts and get() with indices {-1,-0.5,0,0.5,1,2,len,2^53,1e300,NaN,±Inf,0/0,1/0}, map subscripts / get / isset with present and absent keys of str and num key types, % with divisors {0,0.5,-0.5,-1,3,2^63}, match with valid / invalid patterns, get(optional), empty containers, && / || / ?: guards around undefined operations (also 11 hand-built three-level guard idioms); all programs up to the depth bound; plus size families (lists / nested sums / nested conditionals with 43…3000 live stack slots or constants, 256…70000 constants). Oracle: the reference evaluator predicts value or failure kind; the real outcome must be a value exactly when defined and a failure only of the documented kind; get() never fails. non-trivial = the program contains a partial operation",
+		Bound: "quick: depth 1 in full + depth 2 with one nested operand over the 6 core atoms; thorough: depth 1 in full, depth 2 with one nested operand over all boundary atoms, ALL of depth 2 over the 6 core atoms; size families are linear sweeps",
 		Assumptions: []string{"index / modulo truncation toward zero is specified only inside the int64 range; beyond it (and for NaN / ±Inf indices) the oracle demands only 'a documented failure or a value', never an internal fault"},
 	}
 }
@@ -71,6 +71,10 @@ func partialGrammar(full bool) *gen.Grammar {
 	fn(g, "len", N, tyLNum)
 	fn(g, "max", N, tyLNum)
 	fn(g, "if", N, B, N, N)
+	// guards: the unselected operand of && / || / ?: may hold a partial operation that is undefined
+	bin(g, "&&", B, B, B)
+	bin(g, "||", B, B, B)
+	g.Prod("?:", N, []*gen.Ty{B, N, N}, func(x []*gen.Term) *gen.Term { return gen.Ternary(x[0], x[1], x[2]) })
 	g.Prod("list1", tyLNum, []*gen.Ty{N}, func(x []*gen.Term) *gen.Term { return gen.ListT(x[0]) })
 	return g
 }
@@ -124,18 +128,60 @@ func (c02) Generate(tier string, yield func(*engine.Case) bool) {
 			ok = false
 		}
 	}
+	// the size families first: a deadline must never cut them
+	for _, c := range sizePrograms(tier) {
+		emit(c)
+	}
+	// the guarded idioms (three levels deep), on every back end
+	{
+		v, num, str := gen.VarT, gen.NumT, gen.StrT
+		in := gen.Infix
+		sub := gen.SubT
+		penv := partialEnv()
+		for _, t := range []*gen.Term{
+			in("&&", in(">", gen.CallT("len", v("l")), num(2)), in(">", sub(v("l"), num(2)), num(0))),
+			in("&&", gen.CallT("isset", v("m"), str("zz")), in(">", sub(v("m"), str("zz")), num(0))),
+			in("&&", in("!=", num(0), num(0)), in("==", in("%", num(1), num(0)), num(1))),
+			in("&&", gen.BoolT(false), gen.CallT("match", str("("), str("a"))),
+			in("||", gen.BoolT(true), in(">", sub(v("l"), num(9)), num(0))),
+			in("||", in("==", gen.CallT("len", v("le")), num(0)), in(">", sub(v("le"), num(0)), num(0))),
+			gen.Ternary(in(">", gen.CallT("len", v("l")), num(5)), sub(v("l"), num(5)), num(0)),
+			gen.CallT("if", gen.CallT("isset", v("m"), str("zz")), sub(v("m"), str("zz")), num(0)),
+			in("&&", in("&&", gen.BoolT(true), gen.BoolT(false)), in(">", sub(v("l"), num(9)), num(0))),
+			in("||", in("&&", gen.BoolT(false), in(">", sub(v("l"), num(9)), num(0))), in("==", in("%", num(1), num(0)), num(1))),
+			in("&&", in("<", sub(v("l"), num(0)), num(0)), in("==", sub(v("mn"), num(7)), str("a"))),
+		} {
+			emit(progCase("guards", t, penv, "P"))
+		}
+		// the same through lazy FUNCTION VALUES called dynamically (user conditionals)
+		funs := real.StdHost().EnvFuns()
+		denv := partialEnv()
+		denv.Binds = append(denv.Binds, real.Binding{Name: "lzif", V: funs["lzif"]}, real.Binding{Name: "lz1", V: funs["lz1"]}, real.Binding{Name: "lz", V: funs["lz"]})
+		pick := func(n string) *gen.Term { return sub(gen.ListT(v(n)), num(0)) }
+		for _, t := range []*gen.Term{
+			gen.DCallT(pick("lzif"), gen.BoolT(false), sub(v("l"), num(9)), num(1)),
+			gen.DCallT(pick("lzif"), in(">", gen.CallT("len", v("l")), num(5)), sub(v("l"), num(5)), num(0)),
+			gen.DCallT(pick("lzif"), gen.BoolT(true), num(1), in("%", num(1), num(0))),
+			gen.DCallT(pick("lz1"), num(1), sub(v("l"), num(9))),
+			gen.DCallT(pick("lz"), sub(v("l"), num(9)), num(1)),
+			gen.DCallT(gen.CallT("if", gen.BoolT(true), v("lz1"), v("lz")), sub(v("l"), num(0)), sub(v("m"), str("zz"))),
+		} {
+			emit(progCase("guards-dynamic", t, denv, "P"))
+		}
+	}
 	g, env := partialGrammar(true), partialEnv()
 	for _, ty := range []*gen.Ty{gen.Num, gen.Str, gen.Bool} {
 		if tier == "thorough" {
-			g.Each(ty, 2, func(t *gen.Term) bool { emit(progCase("partial", t, env, "P")); return ok })
+			// every boundary value in every position at depth 1 and below one constructor; ALL of
+			// depth 2 over the 6 core atoms (full depth 2 over all boundary atoms is 1.1e8 programs)
+			g.Each(ty, 1, func(t *gen.Term) bool { emit(progCase("partial", t, env, "P")); return ok })
+			g.EachOneDeep(ty, func(t *gen.Term) bool { emit(progCase("partial1", t, env, "P")); return ok })
+			partialGrammar(false).Each(ty, 2, func(t *gen.Term) bool { emit(progCase("partial2", t, env, "P")); return ok })
 		} else {
 			// every boundary value in every position at depth 1; compositions over the 6 core atoms
 			g.Each(ty, 1, func(t *gen.Term) bool { emit(progCase("partial", t, env, "P")); return ok })
 			partialGrammar(false).EachOneDeep(ty, func(t *gen.Term) bool { emit(progCase("partial1", t, env, "P")); return ok })
 		}
-	}
-	for _, c := range sizePrograms(tier) {
-		emit(c)
 	}
 }
 
@@ -162,6 +208,7 @@ func refSize(fam, key string) (float64, bool) {
 
 func (c02) Run(c *engine.Case) *engine.Result {
 	h := real.StdHost()
+	h.EnvFuns() // function-typed environment bindings resolve to this host's functions
 	if len(c.Args) > 0 && c.Args[0] == "src" {
 		res := &engine.Result{NonTrivial: true}
 		want, defined := refSize(c.Family, c.Key)
